@@ -27,43 +27,73 @@ def marker_free(t):
     return "resized" not in ks and "subarray" not in ks
 
 
+# "Degenerate-contiguous" shapes (stride == blocklength, adjacent blocks, a single block, adjacent struct members, with a zero or a
+# non-zero first displacement) are where implementations have fast paths: about 40% of the nodes are drawn from them, and the child
+# of such an indexed-like node is itself a gap-free vector/hvector/contiguous most of the time.
+CONTIG_KINDS = ["vector", "vector", "hvector", "contiguous"]
+ALL_KINDS = ["contiguous", "vector", "vector", "vector", "hvector", "hvector", "indexed", "indexed", "indexed", "hindexed", "indexed_block",
+             "indexed_block", "hindexed_block", "struct", "struct", "resized", "subarray", "dup"]
+pos_small = st.sampled_from([1, 1, 1, 2, 2, 3, 4])
+first_disp = st.sampled_from([0, 0, 1, 1, 2, 3, 5])
+
+
 @st.composite
-def trees(draw, d):
+def trees(draw, d, contig=False):
     if d <= 0:
         return ["b", draw(st.sampled_from(LEAVES))]
-    kind = draw(st.sampled_from(["contiguous", "vector", "vector", "vector", "hvector", "hvector", "indexed", "indexed", "hindexed", "indexed_block",
-                                 "hindexed_block", "struct", "struct", "resized", "subarray", "dup"]))
-    sub_d = d - 1 if draw(st.integers(0, 3)) else 0
+    kind = draw(st.sampled_from(CONTIG_KINDS if contig else ALL_KINDS))
+    deg = contig or draw(st.integers(0, 9)) < 4
+    sub_d = d - 1 if draw(st.integers(0, 5)) else 0
+    if contig:
+        sub_d = 0 if draw(st.integers(0, 2)) else sub_d
     if kind == "struct":
-        n = draw(st.integers(0, 4))
-        olds = [draw(trees(sub_d if draw(st.booleans()) else 0)) for _ in range(n)]
-        bls = [draw(small) for _ in range(n)]
+        n = draw(st.integers(1, 3)) if deg else draw(st.integers(0, 4))
+        olds = [draw(trees(sub_d if draw(st.booleans()) else 0, contig=deg and draw(st.booleans()))) for _ in range(n)]
+        bls = [draw(pos_small if deg else small) for _ in range(n)]
         disps = []
-        pos = 0
+        pos = draw(first_disp) * typemap(olds[0]).align if deg and olds else 0
         for o, bl in zip(olds, bls):
             tm = typemap(o)
             a = tm.align
-            mode = draw(st.integers(0, 3))
+            mode = 3 if deg else draw(st.integers(0, 3))
             if mode == 0:
                 dsp = draw(st.integers(0, 12)) * a                     # anywhere (may overlap, may go backwards)
             else:
                 dsp = (pos + a - 1) // a * a + (draw(st.integers(0, 2)) * a if mode == 1 else 0)     # after the previous member
             disps.append(dsp)
-            pos = max(pos, dsp + max(tm.span(max(bl, 1)), 0))
+            pos = max(pos, dsp + max(tm.span(max(bl, 1)), 0)) if not deg else dsp + bl * tm.extent
         return ["struct", bls, disps, olds]
-    old = draw(trees(sub_d))
+    indexed_like = kind in ("indexed", "hindexed", "indexed_block", "hindexed_block")
+    old = draw(trees(sub_d, contig=deg and indexed_like and sub_d > 0 and draw(st.integers(0, 3)) > 0))
     tm = typemap(old)
     a = tm.align
     if kind == "contiguous":
-        return ["contiguous", draw(cnt), old]
+        return ["contiguous", draw(pos_small if deg else cnt), old]
     if kind == "vector":
+        if deg:
+            bl = draw(pos_small)
+            return ["vector", draw(pos_small), bl, bl, old]
         return ["vector", draw(cnt), draw(small), draw(st.integers(0, 7)), old]
     if kind == "hvector":
+        if deg and tm.defined:
+            bl = draw(pos_small)
+            return ["hvector", draw(pos_small), bl, bl * tm.extent, old]
         return ["hvector", draw(cnt), draw(small), draw(st.integers(0, 12)) * a, old]
     if kind in ("indexed", "hindexed"):
+        unit = 1 if kind == "indexed" else a
+        if deg and tm.defined:
+            # adjacent blocks (or a single one) starting at a zero or non-zero displacement
+            n = draw(st.sampled_from([1, 1, 2, 2, 3]))
+            bls = [draw(pos_small) for _ in range(n)]
+            step = 1 if kind == "indexed" else tm.extent
+            pos = draw(first_disp) * (1 if kind == "indexed" else max(tm.extent, a))
+            disps = []
+            for bl in bls:
+                disps.append(pos)
+                pos += bl * step
+            return [kind, bls, disps, old]
         n = draw(st.integers(0, 4))
         bls = [draw(small) for _ in range(n)]
-        unit = 1 if kind == "indexed" else a
         mode = draw(st.integers(0, 2))
         if mode == 0:
             disps = [draw(st.integers(0, 12)) * unit for _ in range(n)]
@@ -78,8 +108,14 @@ def trees(draw, d):
                     pos = (pos + a - 1) // a * a
         return [kind, bls, disps, old]
     if kind in ("indexed_block", "hindexed_block"):
-        n = draw(st.integers(0, 4))
         unit = 1 if kind == "indexed_block" else a
+        if deg and tm.defined:
+            n = draw(st.sampled_from([1, 1, 2, 3]))
+            bl = draw(pos_small)
+            step = bl if kind == "indexed_block" else bl * tm.extent
+            first = draw(first_disp) * (1 if kind == "indexed_block" else max(tm.extent, a))
+            return [kind, bl, [first + i * step for i in range(n)], old]
+        n = draw(st.integers(0, 4))
         return [kind, draw(small), [draw(st.integers(0, 12)) * unit for _ in range(n)], old]
     if kind == "resized":
         return ["resized", draw(st.integers(0, 3)) * a, draw(st.integers(0, 10)) * a if draw(st.integers(0, 3)) else tm.extent + a * draw(st.integers(0, 2)), old]
@@ -96,12 +132,57 @@ def trees(draw, d):
     raise ValueError(kind)
 
 
+def gap_free_derived(t):
+    """a derived type built by vector / hvector / contiguous whose data is one gap-free run starting at 0 (extent == size): the shapes
+    for which constructors take a 'this is contiguous' shortcut"""
+    if t[0] not in ("vector", "hvector", "contiguous"):
+        return False
+    tm = typemap(t)
+    if not tm.entries or tm.lbm or tm.lb != 0 or tm.extent != tm.size:
+        return False
+    offs = tm.byte_offsets(1)
+    return offs == list(range(len(offs)))
+
+
+def shape_labels(t):
+    """labels of the degenerate-contiguous shapes present in tree t"""
+    res = set()
+    for n in walk(t):
+        k = n[0]
+        if k == "vector" and n[1] >= 1 and n[2] >= 1 and n[3] == n[2]:
+            res.add("stride==blocklen")
+        if k == "hvector" and n[1] >= 1 and n[2] >= 1 and typemap(n[4]).defined and n[3] == n[2] * typemap(n[4]).extent:
+            res.add("stride==blocklen")
+        if k in ("indexed", "hindexed", "indexed_block", "hindexed_block"):
+            if k.endswith("_block"):
+                bls, disps, old = [n[1]] * len(n[2]), n[2], n[3]
+            else:
+                bls, disps, old = n[1], n[2], n[3]
+            o = typemap(old)
+            if not bls or min(bls) < 1 or not o.defined:
+                continue
+            step = 1 if k.startswith("indexed") else o.extent
+            if all(disps[i] + bls[i] * step == disps[i + 1] for i in range(len(bls) - 1)):
+                res.add("single-block" if len(bls) == 1 else "adjacent-blocks")
+                if disps[0] != 0:
+                    res.add("nonzero-first-disp")
+                if gap_free_derived(old):
+                    res.add("adjacent-blocks-over-contig-derived")
+                    if disps[0] != 0:
+                        res.add("adjacent-over-contig-derived+nonzero-first-disp")
+        if k == "struct" and len(n[1]) >= 2 and min(n[1]) >= 1:
+            oms = [typemap(o) for o in n[3]]
+            if all(o.defined for o in oms) and all(n[2][i] + n[1][i] * oms[i].extent == n[2][i + 1] for i in range(len(n[1]) - 1)):
+                res.add("struct-adjacent-members")
+    return res
+
+
 HOWS = ["send", "send", "sendrecv", "pack", "pack", "bcast", "flat_recv", "flat_send"]
 
 
 @st.composite
 def cases(draw):
-    ts = draw(st.lists(trees(draw(st.sampled_from([1, 2, 2, 3, 3]))), min_size=1, max_size=3))
+    ts = draw(st.lists(trees(draw(st.sampled_from([1, 2, 2, 2, 3, 3]))), min_size=1, max_size=3))
     tests = draw(st.lists(st.tuples(st.integers(0, 2), st.sampled_from(HOWS), st.sampled_from([0, 1, 1, 2, 2, 3, 5]), st.integers(0, 9)).map(list),
                           min_size=1, max_size=6))
     return {"types": ts, "tests": tests}
@@ -310,7 +391,7 @@ class C30(core.Prop):
     id = "C30"
     ready = True
     drivers = ["mpi_interp"]
-    sizes = {"quick": 700, "thorough": 30000}
+    sizes = {"quick": 600, "thorough": 30000}
     max_workers = 4
     technique = ("property-based testing (Hypothesis): a type-map calculator (MPI-3.1 4.1) gives size/lb/ub/extent of every node of a random "
                  "constructor tree and the exact set and order of the bytes that a transfer moves; compared with MPI_Type_size/get_extent "
@@ -323,7 +404,11 @@ class C30(core.Prop):
             "checked for MPI_Type_size, lower bound and extent (ub = lb + extent); transfers are checked byte by byte: selected bytes arrive "
             "in type-map order, every other byte of the destination (and 96 bytes after it, and guard zones) keeps its sentinel, Pack advances "
             "position by count*size. Types whose layout already differs are not used for transfers (one root cause, one report). "
-            "Non-trivial: a type with holes (extent > size) and depth >= 2 is transferred. Distinct = distinct canonical JSON.")
+            "About 40% of the nodes are 'degenerate-contiguous' shapes (stride == blocklength, adjacent blocks or a single block with a zero "
+            "or non-zero first displacement, adjacent struct members, preferably over a gap-free vector/hvector/contiguous child): the "
+            "shapes for which constructors have fast paths (labels adjacent-blocks-over-contig-derived, nonzero-first-disp, ...). "
+            "Non-trivial: a type of nesting depth >= 2 with holes (extent > size), a non-zero lower bound, or adjacent/single blocks over a "
+            "gap-free derived child is built and checked. Distinct = distinct canonical JSON.")
     assumptions = ["lb/ub/extent of a type without any data and without resize markers are not asserted (MPI leaves them open)",
                    "receive-side types never overlap (erroneous in MPI); overlapping types are only used on the sending side",
                    "sender and receiver use the same type signature (same tree, or the contiguous sequence of the same basic elements)",
@@ -342,6 +427,14 @@ class C30(core.Prop):
             ["subarray", [4, 3], [2, 2], [1, 0], "F", D], ["contiguous", 2, ["vector", 2, 1, 2, I]], ["dup", ["vector", 2, 1, 3, D]],
             ["vector", 2, 1, 2, ["struct", [1, 1], [0, 8], [I, D]]], ["subarray", [5], [2], [2], "C", I],
         ]
+        # degenerate-contiguous shapes over a gap-free derived child, first displacement zero and non-zero (fast paths of the constructors)
+        V, H, K = ["vector", 2, 2, 2, I], ["hvector", 2, 1, 8, D], ["contiguous", 3, I]
+        for inner in (V, H, K):
+            ex = typemap(inner).extent
+            ts += [["indexed", [2], [3], inner], ["indexed", [1, 2], [1, 2], inner], ["indexed", [1, 1], [0, 1], inner],
+                   ["indexed_block", 1, [2, 3], inner], ["indexed_block", 2, [1], inner],
+                   ["hindexed", [2], [2 * ex], inner], ["hindexed", [1, 1], [ex, 2 * ex], inner], ["hindexed_block", 1, [ex, 2 * ex], inner],
+                   ["struct", [1, 2], [ex, 2 * ex], [inner, inner]], ["contiguous", 2, ["indexed", [1], [1], inner]]]
         res = []
         for t in ts:
             res.append({"types": [t], "tests": [[0, "send", 1, 1], [0, "send", 2, 2], [0, "pack", 2, 3], [0, "bcast", 1, 0], [0, "sendrecv", 3, 0],
@@ -378,6 +471,13 @@ class C30(core.Prop):
         ks = sorted(set(x for t in trees_ for x in kinds(t)))
         oc.labels += ks
         oc.labels.append("depth=%d" % max(depth(t) for t in trees_))
+        oc.labels += sorted(set(x for t in trees_ for x in shape_labels(t)))
+        # non-trivial: nesting depth >= 2 and the layout is not "everything contiguous at 0": holes (extent > size, DESIGN's rule), a
+        # non-zero lower bound, or adjacent/single blocks over a gap-free derived child (the fast-path class)
+        for t in trees_:
+            tm = typemap(t)
+            if depth(t) >= 2 and tm.defined and (tm.extent > tm.size or tm.lb != 0 or "adjacent-blocks-over-contig-derived" in shape_labels(t)):
+                oc.nontrivial = True
         fail = res.failure()
         if fail:
             sig, msg = fail
@@ -472,8 +572,7 @@ class C30(core.Prop):
             if p["count"] > 1:
                 oc.labels.append("count>1")
             if p["holes"] and p["depth"] >= 2 and p["count"] >= 1:
-                oc.nontrivial = True
-                oc.labels.append("holes+nested")
+                oc.labels.append("holes+nested-transferred")
         return oc
 
     @staticmethod
